@@ -1855,6 +1855,9 @@ class Method:
 
         pb_type = page_field_size.type
 
+        if page_field_size.repeated:
+            return False
+
         return pb_type == int or (
             isinstance(pb_type, MessageType)
             and pb_type.message_pb.name in {"UInt32Value", "Int32Value"}
@@ -1877,7 +1880,7 @@ class Method:
             (self.output, str, "next_page_token"),
         ):
             field = source.fields.get(name, None)
-            if not field or field.type != source_type:
+            if not field or field.type != source_type or field.repeated:
                 return None
 
         # The request must have page_size (or max_results if legacy API)
